@@ -279,7 +279,6 @@ func c02r3(c *an.Ctx) {
 	a := A(c)
 	acquire := a.obj("drpcmanager", "(*Manager).acquireSemaphore")
 	newStream := a.obj("drpcmanager", "(*Manager).newStream")
-	waitPrev := a.obj("drpcmanager", "(*Manager).waitForPreviousStream")
 	semF := a.field("drpcmanager", "Manager", "sem")
 	chanGet := a.obj("drpcsignal", "(*Chan).Get")
 	isFinished := a.obj("drpcstream", "(*Stream).IsFinished")
@@ -306,83 +305,78 @@ func c02r3(c *an.Ctx) {
 	}
 	c.Floor("newStream call sites", 1, n)
 
-	// acquireSemaphore: nil return only in the sem-send case and after waitForPreviousStream == nil
+	// acquireSemaphore: it reports success only after the send on m.sem succeeded and, after that, the wait for
+	// the previous stream was satisfied: there is none, it is already finished, or its finished signal was
+	// received. Path-sensitive and through same-package helpers, so that `prev == nil || prev.IsFinished()`,
+	// separate early returns, and the wait written in a helper or in place are all the same to the rule.
 	af := c.Fn("drpcmanager", "(*Manager).acquireSemaphore")
-	nn := 0
-	for _, ret := range an.Returns(af) {
-		for _, v := range returnedValues(ret, 0) {
-			if !(v == nil || an.IsNilConst(v)) {
-				continue
-			}
-			nn++
-			sent := false
-			for _, sc := range an.SelectGuards(ret.Block()) {
-				st := sc.State()
-				if st.Dir == types.SendOnly {
-					if call, ok := st.Chan.(*ssa.Call); ok && an.IsCallTo(call.Common(), chanGet) && recvField(call.Common()) == semF.Origin() {
-						sent = true
-					}
+	const jNone, jDone, jRecv = "no previous stream", "previous stream already finished", "received from prev.Finished()"
+	nt := nilTrack{nonNil: func(v ssa.Value, at ssa.Instruction) bool { return ctxErrAfterDone(v, at) || isTermErr(c, v) }}
+	wflow := &an.Flow{Fn: af, Init: []string{""}, Inline: an.InlineSamePackage(af), OnReturn: nt.onReturn,
+		Step: func(st string, in ssa.Instruction) []string {
+			if x, ok := in.(*ssa.Store); ok {
+				if s2 := nt.store(st, x); s2 != st {
+					return []string{s2}
 				}
 			}
-			c.Check(sent, "acquireSemaphore | nil only after a successful send on m.sem", c.At(ret), "", "acquireSemaphore reports success without holding the semaphore")
-			waited := false
-			for _, g := range an.GuardsOf(ret.Block()) {
-				if x, trueNonNil, ok := nilTestOf(g.Cond); ok && g.True != trueNonNil {
-					if call, isCall := an.Resolve(x).(*ssa.Call); isCall && an.IsCallTo(call.Common(), waitPrev) {
-						waited = true
-					}
-				}
-			}
-			c.Check(waited, "acquireSemaphore | nil only after waitForPreviousStream returned nil", c.At(ret), "", "a new stream can start while the previous one still has operations in flight on the transport")
-		}
-	}
-	c.Floor("nil returns of acquireSemaphore", 1, nn)
-
-	// waitForPreviousStream: nil only via prev == nil, prev.IsFinished(), or a receive from prev.Finished()
-	// (path-sensitive, so that `prev == nil || prev.IsFinished()` and separate early returns are the same to it)
-	wf := c.Fn("drpcmanager", "(*Manager).waitForPreviousStream")
-	wflow := &an.Flow{Fn: wf, Init: []string{""}, Inline: an.InlineSamePackage(wf),
-		Step: func(st string, in ssa.Instruction) []string { return nil },
+			return nil
+		},
 		Branch: func(st string, br *ssa.If, idx int) (string, bool) {
 			if sc, ok := an.SelectBranch(br, idx); ok {
 				s2 := sc.State()
-				if s2.Dir == types.RecvOnly {
-					if call, ok := s2.Chan.(*ssa.Call); ok && an.IsCallTo(call.Common(), finished) {
-						return addTag(st, "received from prev.Finished()"), true
+				if call, ok := s2.Chan.(*ssa.Call); ok {
+					if s2.Dir == types.SendOnly && an.IsCallTo(call.Common(), chanGet) && recvField(call.Common()) == semF.Origin() {
+						return addTag(st, "sent"), true
+					}
+					if s2.Dir == types.RecvOnly && an.IsCallTo(call.Common(), finished) && hasTag(st, "sent") {
+						return addTag(st, jRecv), true
 					}
 				}
 				return st, true
 			}
 			if x, trueNonNil, ok := nilTestOf(br.Cond); ok {
-				if call, isCall := x.(*ssa.Call); isCall && an.IsCallTo(call.Common(), sbufGet) && (idx == 0) != trueNonNil {
-					return addTag(st, "no previous stream"), true
+				isNil := (idx == 0) != trueNonNil
+				if call, isCall := an.Resolve(x).(*ssa.Call); isCall && an.IsCallTo(call.Common(), sbufGet) {
+					if isNil && hasTag(st, "sent") {
+						return addTag(st, jNone), true
+					}
+					return st, true
+				}
+				if s2, handled, feasible := nt.branch(st, br, idx); handled {
+					return s2, feasible
 				}
 				return st, true
 			}
 			cond, neg := an.StripNot(br.Cond)
-			if call, ok := cond.(*ssa.Call); ok && an.IsCallTo(call.Common(), isFinished) && (idx == 0) != neg {
-				return addTag(st, "previous stream already finished"), true
+			if call, ok := cond.(*ssa.Call); ok && an.IsCallTo(call.Common(), isFinished) && (idx == 0) != neg && hasTag(st, "sent") {
+				return addTag(st, jDone), true
 			}
 			return st, true
 		},
 	}
 	wres := wflow.Run()
-	nn = 0
-	for _, ret := range an.Returns(wf) {
-		if !wres.Reachable(ret.Block()) {
+	nn := 0
+	for _, ret := range an.Returns(af) {
+		if !wres.Reachable(ret.Block()) || len(ret.Results) == 0 {
 			continue
 		}
-		for _, v := range returnedValues(ret, 0) {
-			if !(v == nil || an.IsNilConst(v)) {
-				continue
+		e := ret.Results[0]
+		for _, st := range wres.Before(ret) {
+			if known, nonNil := nt.status(st, e, ret); !known || nonNil {
+				continue // a failure, or an error value handed through (term.Get): not a success return
 			}
-			for _, st := range wres.Before(ret) {
-				nn++
-				c.Check(st != "", "waitForPreviousStream | nil return justified ("+st+")", c.At(ret), st, "waitForPreviousStream can return nil although the previous stream is neither absent nor finished")
+			nn++
+			c.Check(hasTag(st, "sent"), "acquireSemaphore | nil only after a successful send on m.sem", c.At(ret), "", "acquireSemaphore reports success without holding the semaphore")
+			just := ""
+			for _, j := range []string{jNone, jDone, jRecv} {
+				if hasTag(st, j) {
+					just = j
+				}
 			}
+			c.Check(just != "", "acquireSemaphore | success only after the previous stream is absent or finished", c.At(ret), just, "a new stream can start while the previous one still has operations in flight on the transport (acquireSemaphore can return nil although the previous stream is neither absent nor finished)")
 		}
 	}
-	c.Floor("nil returns of waitForPreviousStream", 1, nn)
+	c.Floor("nil returns of acquireSemaphore", 1, nn)
 }
 
 func c02r4(c *an.Ctx) {
@@ -483,7 +477,6 @@ func c02r6(c *an.Ctx) {
 	sfinF := a.field("drpcmanager", "Manager", "sfin")
 	chanRecv := a.obj("drpcsignal", "(*Chan).Recv")
 	chanMake := a.obj("drpcsignal", "(*Chan).Make")
-	waitPrev := a.obj("drpcmanager", "(*Manager).waitForPreviousStream")
 	isSemRecv := func(cc *ssa.CallCommon) bool {
 		return an.IsCallTo(cc, chanRecv) && recvField(cc) == semF.Origin()
 	}
@@ -531,84 +524,37 @@ func c02r6(c *an.Ctx) {
 	}
 	c.Floor("manageStream exit states", 1, nret)
 
-	// acquireSemaphore: release on the failure path after acquiring
+	// acquireSemaphore and NewServerStream: the semaphore is released exactly on the ways out that report
+	// an error after it was taken. Decided path-sensitively, so that a deferred "if err != nil { release }",
+	// an explicit test before the return and a helper that does either are all the same to the rule.
 	af := c.Fn("drpcmanager", "(*Manager).acquireSemaphore")
-	for _, cs := range an.CallsTo(af, false, waitPrev) {
-		call := cs.Instr.(*ssa.Call)
-		for _, ret := range an.Returns(af) {
-			if !an.InstrDominates(call, ret) {
-				continue
-			}
-			vals := returnedValues(ret, 0)
-			isNil := len(vals) == 1 && (vals[0] == nil || an.IsNilConst(vals[0]))
-			released := false
-			for _, r := range an.Calls(af, false, isSemRecv) {
-				if an.InstrDominates(call, r.Instr) && an.InstrDominates(r.Instr, ret) {
-					released = true
-				}
-			}
-			if isNil {
-				c.Check(!released, "acquireSemaphore | success path keeps the semaphore", c.At(ret), "", "the semaphore is released although acquisition is reported as successful")
-			} else {
-				c.Check(released, "acquireSemaphore | failure after acquiring releases the semaphore", c.At(ret), "", "acquireSemaphore fails after taking the semaphore without releasing it: the connection can never start another stream")
-			}
+	semGet := a.obj("drpcsignal", "(*Chan).Get")
+	semDiscipline(c, af, "acquireSemaphore", isSemRecv, nil, func(br *ssa.If, idx int) bool {
+		sc, ok := an.SelectBranch(br, idx)
+		if !ok {
+			return false
 		}
-	}
-
-	// NewServerStream: a deferred closure releases when the named result err != nil, registered right after acquisition
+		stt := sc.State()
+		if stt.Dir != types.SendOnly {
+			return false
+		}
+		call, isCall := stt.Chan.(*ssa.Call)
+		return isCall && an.IsCallTo(call.Common(), semGet) && recvField(call.Common()) == semF.Origin()
+	}, 0)
 	sv := c.Fn("drpcmanager", "(*Manager).NewServerStream")
-	okDefer := false
-	var deferAt ssa.Instruction
-	an.Instrs(sv, func(in ssa.Instruction) {
-		d, ok := in.(*ssa.Defer)
-		if !ok {
-			return
+	afObj := a.obj("drpcmanager", "(*Manager).acquireSemaphore")
+	semDiscipline(c, sv, "NewServerStream", isSemRecv, afObj, nil, 2)
+	// every way out of NewServerStream with a nil stream carries a non-nil error (a caller must never see (nil, "", nil))
+	for _, rc := range an.ReturnCases(sv) {
+		if len(rc.Vals) < 3 {
+			continue
 		}
-		mc, ok := d.Call.Value.(*ssa.MakeClosure)
-		if !ok {
-			return
+		sv0, e := rc.Vals[0], rc.Vals[2]
+		if !(sv0 == nil || an.IsNilConst(sv0)) {
+			continue
 		}
-		clo := mc.Fn.(*ssa.Function)
-		for _, r := range an.Calls(clo, false, isSemRecv) {
-			for _, g := range an.GuardsOf(r.Instr.Block()) {
-				if x, trueNonNil, isNil := nilTestOf(g.Cond); isNil && g.True == trueNonNil {
-					// x is a load of the captured named result `err`
-					if u, isU := x.(*ssa.UnOp); isU {
-						if fv, isFV := u.X.(*ssa.FreeVar); isFV {
-							if al, isAl := mc.Bindings[fvIndex(clo, fv)].(*ssa.Alloc); isAl && isNamedResult(sv, al) {
-								okDefer = true
-								deferAt = in
-							}
-						}
-					}
-				}
-			}
-		}
-	})
-	pos := c.P.Pos(sv.Pos())
-	if deferAt != nil {
-		pos = c.At(deferAt)
-	}
-	c.Check(okDefer, "NewServerStream | deferred release of the semaphore when err != nil", pos, "", "NewServerStream does not release the semaphore on its error returns")
-	if okDefer {
-		// every return with a nil stream must carry a non-nil error (otherwise the deferred release is skipped)
-		for _, ret := range an.Returns(sv) {
-			if len(ret.Block().Preds) == 0 && ret.Block() != sv.Blocks[0] {
-				continue
-			}
-			if !an.InstrDominates(deferAt, ret) {
-				continue
-			}
-			for _, sv0 := range returnedValues(ret, 0) {
-				if !(sv0 == nil || an.IsNilConst(sv0)) {
-					continue
-				}
-				for _, e := range returnedValues(ret, 2) {
-					ok := e != nil && !an.IsNilConst(e) && (provablyNonNil(e, storeBlock(ret, e), 0) || provablyNonNil(e, ret.Block(), 0) || ctxErrAfterDone(e, ret) || isTermErr(c, e))
-					c.Check(ok, "NewServerStream | nil stream is returned with a non-nil error", c.At(ret), "", "NewServerStream can return (nil, \"\", nil) or an error not shown non-nil: "+describeRet(e)+"; the deferred semaphore release is skipped")
-				}
-			}
-		}
+		ok := e != nil && !an.IsNilConst(e) && (provablyNonNilCase(e, rc) || ctxErrAfterDone(e, rc.Ret) || isTermErr(c, e))
+		c.Check(ok, "NewServerStream | nil stream is returned with a non-nil error", c.At(rc.Ret), "", "NewServerStream can return (nil, \"\", nil) or an error not shown non-nil: "+describeRet(e)+"; the semaphore release keyed on the error is skipped")
 	}
 
 	// newStream: once the stream was handed to the watcher (send on m.streams succeeded) the watcher owns the
@@ -668,6 +614,96 @@ func c02r6(c *an.Ctx) {
 	})
 	c.Check(okSem, "drpcmanager.NewWithOptions | m.sem.Make(1)", c.P.Pos(mw.Pos()), "", "the stream semaphore's capacity is not the constant 1: more than one stream can be active on a connection")
 	c.Check(okFin, "drpcmanager.NewWithOptions | sfin has capacity 1", c.P.Pos(mw.Pos()), "", "the finished-token channel's capacity is not the constant 1 (checkFinished sends under Stream.mu and must not block)")
+}
+
+// semDiscipline checks, over every path of fn, that the manager's stream semaphore is released exactly
+// when fn reports an error after having taken it. The semaphore is taken either by a successful call of
+// acquireCall (its error result tested nil) or on a branch edge recognised by acquireEdge. errIdx is the
+// index of the error result.
+func semDiscipline(c *an.Ctx, fn *ssa.Function, name string, isRelease func(*ssa.CallCommon) bool, acquireCall *types.Func, acquireEdge func(*ssa.If, int) bool, errIdx int) {
+	nt := nilTrack{nonNil: func(v ssa.Value, at ssa.Instruction) bool { return ctxErrAfterDone(v, at) || isTermErr(c, v) }}
+	flow := &an.Flow{Fn: fn, Init: []string{""},
+		Inline: func(call ssa.CallInstruction) *ssa.Function {
+			callee := an.InlineSamePackage(fn)(call)
+			if callee != nil && acquireCall != nil && callee.Object() == types.Object(acquireCall) {
+				return nil
+			}
+			return callee
+		},
+		Step: func(st string, in ssa.Instruction) []string {
+			switch x := in.(type) {
+			case *ssa.Call:
+				if isRelease(x.Common()) {
+					if hasTag(st, "rel") {
+						return []string{addTag(st, "rel2")}
+					}
+					return []string{addTag(st, "rel")}
+				}
+			case *ssa.Store:
+				if s2 := nt.store(st, x); s2 != st {
+					return []string{s2}
+				}
+			}
+			return nil
+		},
+		OnReturn: nt.onReturn,
+		Branch: func(st string, br *ssa.If, idx int) (string, bool) {
+			if acquireEdge != nil && acquireEdge(br, idx) {
+				return addTag(st, "held"), true
+			}
+			x, trueNonNil, ok := nilTestOf(br.Cond)
+			if !ok || !isErrorType(x.Type()) {
+				return st, true
+			}
+			nonNil := (idx == 0) == trueNonNil
+			if acquireCall != nil {
+				if call, isCall := an.Resolve(an.Unwrap(x)).(*ssa.Call); isCall && an.IsCallTo(call.Common(), acquireCall) {
+					if nonNil {
+						return addTag(st, "acqfail"), true
+					}
+					return addTag(st, "held"), true
+				}
+			}
+			s2, _, feasible := nt.branch(st, br, idx)
+			return s2, feasible
+		},
+	}
+	res := flow.Run()
+	if res.Blowup {
+		c.Undecided("semaphore discipline of " + name + ": state space too large")
+		return
+	}
+	nHeld := 0
+	for _, ret := range an.Returns(fn) {
+		if !res.Reachable(ret.Block()) || errIdx >= len(ret.Results) {
+			continue
+		}
+		e := ret.Results[errIdx]
+		for _, st := range res.Before(ret) {
+			known, nonNil := nt.status(st, e, ret)
+			rel, twice := hasTag(st, "rel"), hasTag(st, "rel2")
+			if !hasTag(st, "held") {
+				c.Check(!rel, name+" | no release on a way out that never took the semaphore", c.At(ret), "", "the semaphore is released on a path that did not take it: another stream's hold is dropped and two streams share the connection")
+				continue
+			}
+			nHeld++
+			c.Check(!twice, name+" | at most one release per acquisition", c.At(ret), "", "the semaphore is released twice on one path")
+			switch {
+			case !known:
+				c.Check(false, name+" | release of the semaphore is decided by the error result", c.At(ret), "", "cannot relate the returned error "+describeRet(e)+" to whether the semaphore was released on this path")
+			case nonNil:
+				c.Check(rel, name+" | failure after acquiring releases the semaphore", c.At(ret), "", name+" fails after taking the semaphore without releasing it: the connection can never start another stream")
+			default:
+				c.Check(!rel, name+" | success path keeps the semaphore", c.At(ret), "", "the semaphore is released although success is reported: the stream runs without holding it and the next one starts beside it")
+			}
+		}
+	}
+	c.Floor("ways out of "+name+" holding the semaphore", 1, nHeld)
+}
+
+func isErrorType(t types.Type) bool {
+	n, ok := t.(*types.Named)
+	return ok && n.Obj().Pkg() == nil && n.Obj().Name() == "error"
 }
 
 func fvIndex(fn *ssa.Function, fv *ssa.FreeVar) int {
